@@ -440,7 +440,9 @@ func (user *userImpl) CollectionChannelGrantedPeriods(scope, collection, chanNam
 		}
 	}
 
-	roles, err := user.GetRoles()
+	// Include deleted roles: a deleted role stays in the user's role list, and its channel history records the
+	// periods during which it granted the channel.
+	roles, err := user.GetRolesIncDeleted()
 	if err != nil {
 		return nil, err
 	}
